@@ -1,7 +1,7 @@
 ------------------------------ MODULE MC_Diagrams ------------------------------
 (* C16 (first tranche: diagrams of deterministic data): dataset x diagram x      *)
 (* option variant -> the series the figure must contain.                         *)
-EXTENDS Diagrams, DatasetGen
+EXTENDS Diagrams, Report, DatasetGen
 VARIABLES gen, d, phase
 vars == <<gen, d, phase>>
 Ds == DsOfSmall(gen)
@@ -9,6 +9,7 @@ Cfg0 == [agg |-> "mean", q |-> Zero, bt |-> "above", t |-> R(2), u |-> R(2)]
 ThsA == <<R(-1), R(1), R(3), R(6)>>
 Variants ==
   {[diagram |-> "standard", argv |-> <<"-m", m, "-x", a>>, m |-> m, axis |-> a] : m \in {"mae", "corr"}, a \in {"leadtime", "time", "location", "month", "no"}}
+  \cup {[diagram |-> "standard-avg", argv |-> <<"-m", m, "-x", a, "-r", "-1,1,3,6", "-b", "within">>, m |-> m, axis |-> a] : m \in {"mae", "n"}, a \in {"leadtime", "location"}}
   \cup {[diagram |-> "obsfcst", argv |-> <<"-m", "obsfcst", "-x", a>>, m |-> "", axis |-> a] : a \in {"leadtime", "time", "location"}}
   \cup {[diagram |-> x, argv |-> <<"-m", x>>, m |-> "", axis |-> "no"] : x \in {"qq", "scatter", "against"}}
   \cup {[diagram |-> "sort", argv |-> <<"-m", f, "-sort">>, m |-> f, axis |-> "no"] : f \in {"obs", "fcst"}}
@@ -20,6 +21,9 @@ ExprSeqJ(s) == s
 SeriesJ(ss) == [k \in DOMAIN ss |-> [label |-> ss[k].label, x |-> ss[k].x, y |-> ss[k].y]]
 SeriesOf(X, v) ==
   CASE v.diagram = "standard" -> StandardSeries(X, v.m, v.axis, Cfg0)
+    [] v.diagram = "standard-avg" ->      \* several thresholds on a data axis: the drawn score is the mean over the events
+         LET T == AveragedTable(Ds, X, v.m, v.axis, "within", ThsA, <<>>) IN
+         [i \in 1..X.n |-> Series(InputLabel(i), [k \in 1..NumSlices(X, v.axis) |-> Q(AxisX(X, v.axis, k))], [k \in 1..NumSlices(X, v.axis) |-> T.rows[k].scores[i]])]
     [] v.diagram = "obsfcst" -> ObsFcstSeries(X, v.axis)
     [] v.diagram = "qq" -> QQSeries(X)
     [] v.diagram = "scatter" -> ScatterSeries(X)
